@@ -618,6 +618,13 @@ def scenarios(ctx):
         for ci, case in enumerate(cases):
             scs.append({"kind": kind, "ns": ns, "rec": ri, "array": list(case), "nsa": 480 + 97 * ((ci + ri) % 4), "n": 12 if ctx.quick else 40,
                         "seed": base + 100 * ri + ci, "group": None})
+        # the recording replaced under its own name (seed round g: a reader cached per path in the process and in its workers):
+        # other samples written to a new file at the same path after all the extractions above, then extracted again - in the
+        # calling process and by the (reused) workers; judged against the file as it is now
+        common = {"kind": kind, "ns": ns, "rec": ri, "train": 0, "seed": base + 10 * ri, "nunits": 4, "nspk": 400, "g": ri * trains,
+                  "ids": (ri * trains) % 3, "empty": (ri * trains) % 2 == 0}
+        for j, (chunk, nj) in enumerate([(3000, 1), (500, 2)] if ctx.quick else [(3000, 1), (500, 2), (1000, 4), (10000, 8)]):
+            scs.append(dict(common, maxwf=8, chunk=chunk, njobs=nj, group=f"r{ri}new", k=j, left=0, rewrite=j == 0))
     return scs
 
 
@@ -654,6 +661,8 @@ def run(ctx):
     recs, trains, masters, traces = {}, {}, {}, []
     for i, sc in enumerate(scs):
         if sc["rec"] not in recs:
+            recs[sc["rec"]] = make_rec(ctx, sc["kind"], sc["ns"], rng, sc["rec"])
+        elif sc.get("rewrite"):
             recs[sc["rec"]] = make_rec(ctx, sc["kind"], sc["ns"], rng, sc["rec"])
         binf, d = recs[sc["rec"]]
         if "array" in sc:
@@ -748,6 +757,11 @@ def replay(ctx, sc):
         if s["rec"] not in recs:
             for _ in range(s["rec"] + 1):      # same generator stream as in run(): recording k is the k-th drawn
                 pass
+            recs[s["rec"]] = make_rec(ctx, s["kind"], s["ns"], rng, s["rec"])
+        if str(s.get("group") or "").endswith("new") and not s.get("replayed_history"):
+            # the history of this scenario: the same call on the recording that was at this path before, then the replacement
+            with window(s):
+                one_extract(ctx, recs[s["rec"]][0], recs[s["rec"]][1], build_train(s), s, 900 + i, {})
             recs[s["rec"]] = make_rec(ctx, s["kind"], s["ns"], rng, s["rec"])
         binf, d = recs[s["rec"]]
         if "array" in s:
